@@ -321,12 +321,12 @@ Proof.
   apply obind_ok in H as ([] & _ & H).
   apply obind_ok in H as ([] & Hcomm & _).
   unfold gx_init.
-  assert (E1 : all_ok (fun m : bytes * list (N * N) =>
-                 all_ok (fun kv : N * N => if (fst kv =? 0) || (snd kv =? 0) then Panic else Ok tt) (snd m)) (gx_metadata g) = Ok tt).
+  assert (E1 : all_ok (fun m : bytes * list (bytes * N) =>
+                 all_ok (fun kv : bytes * N => if (lenN (fst kv) =? 0) || (snd kv =? 0) then Panic else Ok tt) (snd m)) (gx_metadata g) = Ok tt).
   { apply all_ok_intro. intros m Hm. pose proof (all_ok_ok _ _ Hmeta m Hm) as Hm'. cbn in Hm'.
     destruct (assoc_type types (fst m)); [|discriminate].
     apply all_ok_intro. intros kv Hkv. pose proof (all_ok_ok _ _ Hm' kv Hkv) as Hkv'. cbn in Hkv'.
-    destruct ((fst kv =? 0) || (snd kv =? 0)); [discriminate | reflexivity]. }
+    destruct ((lenN (fst kv) =? 0) || (snd kv =? 0)); [discriminate | reflexivity]. }
   rewrite E1. cbn [obind].
   assert (E2 : all_ok (fun c : bytes * any client_state => match snd c with AnyVal _ => Ok tt | _ => Panic end) (gx_clients g) = Ok tt).
   { apply all_ok_intro. intros c Hin. destruct (gx_validate_clients_vals _ _ _ Hc c Hin) as (cs & ->). reflexivity. }
